@@ -23,6 +23,7 @@ SIG_OVERLAP = 'colspan-overlaps-rowspan-slot'
 SIG_WS_OUTFLOW = 'ws-not-collapsed-across-inline-in-out-of-flow-box'
 SIG_GEN_BLOCK = 'generated-content-of-non-inline-pseudo-not-processed'
 SIG_BLOCKIFY = 'blockification-drops-inner-display-type'
+SIG_FLEX_TABLE = 'inline-table-flex-item-loses-table-wrapper'
 
 
 def bl(b):
@@ -463,8 +464,11 @@ class Gen:
         # table parts are much more likely under a table part / table
         if parent_display in ('table', 'inline-table') + TABLE_PARTS and rng.random() < .6:
             d = rng.choice([x for x in TABLE_PARTS if x in p['displays']] or [d])
-        if parent_display in ('flex', 'inline-flex', 'grid', 'inline-grid') and d in ('table-column', 'table-column-group'):
-            d = 'block'      # flex/grid items with an internal table display are not blockified (see report): avoided
+        if parent_display in ('flex', 'inline-flex', 'grid', 'inline-grid'):
+            if d in ('table-column', 'table-column-group'):
+                d = 'block'      # flex/grid items with an internal table display are not blockified (see report): avoided
+            if d == 'inline-table':
+                d = 'table'      # listed finding SIG_FLEX_TABLE (and the TypeError in preferred.min_content_width): one probe
         return d
 
     def element(self, depth, parent_display):
@@ -541,7 +545,7 @@ def to_html(body):
                 rules.append('#%s::%s{content:%s;display:%s}' % (e['id'], which, css_str(e[which]['content']), e[which]['display']))
         return '<div id=%s%s style="%s">%s</div>' % (e['id'], at, ';'.join(st), ''.join(el(k) for k in e['kids']))
     inner = ''.join(el(e) for e in body)
-    return ('<style>@page{size:3000px 100000px;margin:0}body{margin:0;font-family:weasyprint;font-size:10px;line-height:10px}'
+    return ('<style>@page{size:1600px 100000px;margin:0}body{margin:0;font-family:weasyprint;font-size:10px;line-height:10px}'
             '%s</style>%s' % (''.join(rules), inner))
 
 
@@ -674,36 +678,43 @@ def py_tt(tt, s):
 
 
 def judge_ifc(ifc):
-    """returns None or (kind, expected, actual)"""
+    """returns None or (kind, expected, actual); kind 'text-known' = the difference is exactly the listed mechanism
+    (the flag is not handed from child to child of an out-of-flow box)"""
     items = ifc['items']
     if any(it[0] == 't' and it[1] is None and not it[5].endswith('::marker') for it in items):
         return ('unprocessed', None, [it[4] for it in items if it[0] == 't'])
     ref_items, act = [], []
     for it in items:
         if it[0] == 'a':
-            ref_items.append(('a',))
+            ref_items.append(('a', it[-1]))
             act.append(['￼', False])
         else:
             orig = it[1] if it[1] is not None else it[4]
-            ref_items.append(('t', orig, it[2]))
+            ref_items.append(('t', orig, it[2], it[-1]))
             act.extend([c, c == ' ' and it[2] in COLLAPSING] for c in it[4])
-    exp = phase1(ref_items)
-    # text-transform, per text box as the implementation does (ASCII words): applied on the comparison strings
-    e, a = phase2(exp), phase2(act)
+    e, a = phase2(phase1(ref_items)), phase2(act)
     tts = set(it[3] for it in items if it[0] == 't')
-    if tts - {'none'}:
-        # compare case-insensitively, then each box against its own transform
-        if e.lower() != a.lower():
-            return ('text', e, a)
-        for it in items:
-            if it[0] == 't' and it[3] in ('uppercase', 'lowercase') and it[4] != py_tt(it[3], it[4]):
-                return ('transform', it[3], it[4])
-            if it[0] == 't' and it[3] == 'capitalize' and it[4] != py_tt('capitalize', it[4].lower()) and it[1] is not None \
-                    and it[1] == it[1].lower():
-                return ('transform', it[3], it[4])
-        return None
-    if e != a:
+    same = (e.lower() == a.lower()) if tts - {'none'} else (e == a)
+    if not same:
+        if not ifc['host_in_flow']:
+            # what the code does there: every child of the box starts with the flag unset
+            groups = []
+            for r in ref_items:
+                if groups and groups[-1][0][-1] == r[-1]:
+                    groups[-1].append(r)
+                else:
+                    groups.append([r])
+            e2 = phase2(sum((phase1(g) for g in groups), []))
+            if (e2.lower() == a.lower()) if tts - {'none'} else (e2 == a):
+                return ('text-known', e, a)
         return ('text', e, a)
+    # text-transform, per text box as the implementation applies it (ASCII words)
+    for it in items:
+        if it[0] == 't' and it[3] in ('uppercase', 'lowercase') and it[4] != py_tt(it[3], it[4]):
+            return ('transform', it[3], it[4])
+        if it[0] == 't' and it[3] == 'capitalize' and it[1] is not None and it[1] == it[1].lower() \
+                and it[4] != py_tt('capitalize', it[4].lower()):
+            return ('transform', it[3], it[4])
     return None
 
 
@@ -734,12 +745,12 @@ WF_CLAUSES = {1: '_sanity_checks (PROPER_CHILDREN)', 2: 'block container: only b
 
 PROFILES = {
     # everything, judged right after build_formatting_structure only (layout is not run)
+    # (::before/::after that are not inline: listed finding SIG_GEN_BLOCK, one probe)
     'build-any': dict(displays=ALL_DISPLAYS, depth=4, float=.08, abs=.05, fixed=True, pseudo=.12,
-                      pseudo_displays=['inline', 'inline', 'block', 'inline-block', 'table-cell', 'none', 'list-item', 'flex'],
-                      render=False),
+                      pseudo_displays=['inline', 'inline', 'inline', 'none'], render=False),
     # laid out: shaped around the crash sites of the unchanged tree (see SHAPING below)
     'render': dict(displays=[d for d in ALL_DISPLAYS], depth=4, float=.06, abs=.04, fixed=False, pseudo=.12,
-                   pseudo_displays=['inline', 'inline', 'block', 'inline-block', 'none'], render=True),
+                   pseudo_displays=['inline', 'inline', 'inline', 'none'], render=True),
 }
 
 
@@ -790,8 +801,8 @@ def run_docs(run, stream, docs, render):
     stats = Counter()
     crashes = {}
     for di, ((body, html), (st, o)) in enumerate(zip(docs, outs)):
-        if st == 'timeout':
-            run.fail('timeout', {'stream': stream, 'html': html}, signature='timeout')
+        if st == 'timeout' or (st == 'exc' and o.get('type') == 'CaseTimeout'):
+            stats['timeout(not judged)'] += 1          # termination / speed is not this property
             continue
         if st == 'exc':
             site = tuple(o['site']) if o.get('site') else None
@@ -826,7 +837,7 @@ def run_docs(run, stream, docs, render):
                 stats['known:' + SIG_GEN_BLOCK] += 1
                 run.fail('text of a ::before/::after box that is not inline never goes through process_whitespace / '
                          'process_text_transform: %r' % (a,), {'stream': stream, 'html': html, 'ifc': ifc}, signature=SIG_GEN_BLOCK)
-            elif kind == 'text' and not ifc['host_in_flow']:
+            elif kind == 'text-known':
                 stats['known:' + SIG_WS_OUTFLOW] += 1
                 run.fail('inline content of an out-of-flow box (%s): collapsible spaces are not collapsed across inline '
                          'boxes: expected %r, box tree has %r' % (ifc['host'], e, a),
@@ -836,6 +847,9 @@ def run_docs(run, stream, docs, render):
                          'expected %r, box tree has %r (%s)' % (e, a, kind),
                          {'stream': stream, 'html': html, 'ifc': ifc, 'expected': e, 'got': a}, signature='text:ifc-%s' % kind)
         # ---- after layout
+        if 'post_crash' in o and o['post_crash'].get('type') == 'CaseTimeout':
+            stats['timeout(not judged)'] += 1
+            continue
         if 'post_crash' in o:
             c = o['post_crash']
             site = tuple(c['site']) if c.get('site') else None
@@ -918,7 +932,37 @@ KNOWN_CRASH_SITES = {
 }
 
 
+PROBE_GEN_BLOCK = ('<style>body{margin:0}#p::before{content:"a   b  ";display:block;text-transform:uppercase}</style>'
+                   '<div id=p>c</div>')
+PROBE_FLEX_TABLE = '<div style="display:flex"><div style="display:inline-table">a</div></div>'
+
+
+def probes(run):
+    """one dedicated document per listed finding of this property that the random streams are shaped around"""
+    outs = common.run_impl('impl_c08', 'build_and_render', [dict(html=PROBE_GEN_BLOCK, render=False),
+                                                             dict(html=PROBE_FLEX_TABLE, render=False)])
+    (st, o) = outs[0]
+    if st == 'ok':
+        bad = [judge_ifc(i) for i in o['pre']['ifcs']]
+        if any(b and b[0] == 'unprocessed' for b in bad):
+            run.fail('text of a ::before/::after box that is not inline never goes through process_whitespace / '
+                     'process_text_transform: "a   b  " stays as written', {'stream': 'probe', 'html': PROBE_GEN_BLOCK},
+                     signature=SIG_GEN_BLOCK)
+    else:
+        run.oblige('probe:generated-content', False, str(o))
+    (st, o) = outs[1]
+    if st == 'ok':
+        m = common.eval_cases('c08probe', PRE_TREE, 'bool * tree', ['(false, %s)' % tree_term(o['pre']['tree'])], 'wf_judge')[0]
+        if m & 4:
+            run.fail('an inline-table that is a flex/grid item loses its table wrapper (anonymous block instead of '
+                     'wrapper > table); layout then raises TypeError in preferred.min_content_width',
+                     {'stream': 'probe', 'html': PROBE_FLEX_TABLE, 'mask': m}, signature=SIG_FLEX_TABLE)
+    else:
+        run.oblige('probe:flex-inline-table', False, str(o))
+
+
 def stream_documents(run, rng, thorough):
+    probes(run)
     feats = Counter()
     for stream, n in (('doc-build', 1500 if thorough else 420), ('doc-render', 2500 if thorough else 520)):
         prof = PROFILES['build-any' if stream == 'doc-build' else 'render']
@@ -939,7 +983,7 @@ def stream_documents(run, rng, thorough):
         run.count(stream, len(docs), [h for _, h in docs], samples=[docs[0][1][:700]])
         run.stream_info(stream, rule=('random DOM trees depth <= 5: every element takes any display value in any nesting, float / '
                                       'position, white-space, text-transform, colspan/rowspan (0..4), ::before/::after with content; '
-                                      'text with spaces, tabs, newlines and unique words; page 3000x100000px. ' +
+                                      'text with spaces, tabs, newlines and unique words; page 1600x100000px. ' +
                                       ('Judged right after build_formatting_structure.' if stream == 'doc-build' else
                                        'Judged after build_formatting_structure and after layout; shaped around known crash sites.')),
                         **{k: v for k, v in stats.items()})
